@@ -1,2 +1,65 @@
-(* Property C12 — statements follow. *)
-From Nitro Require Import Opt.Run.
+(* Property C12 — positionals: --, greedy mode, the accepted count and negative indices.  Only statements (on the parser core
+   loop; C04_guards_never_fire identifies it with the extracted model). *)
+From Coq Require Import List Arith Bool ZArith.
+From Coq Require Import Init.Byte.
+From Nitro Require Import Base.Bytes Base.Res Opt.Token Opt.Decl Opt.ParserModel Opt.ParserCore Opt.ParserSpec Opt.Vocab Opt.Run
+  Opt.RefineDefs Opt.Corollaries Opt.CoreEq Opt.History Opt.Positional Opt.Lexical Opt.Refine5 Opt.Sample.
+Import ListNotations.
+
+(* once in positional-only mode (after --, or after the first positional in greedy mode) every remaining token, whatever it
+   looks like, becomes a positional verbatim and in order; the only possible failure is the accepted count *)
+Theorem C12_positional_only_mode : forall d st pos rest,
+  (match d_allowed d with Some k => length pos <= k | None => True end) ->
+  loop d st true pos false rest =
+  if (match d_allowed d with Some k => length pos + length rest <=? k | None => true end) then Ok (st, pos ++ rest) else Err UserError.
+Proof. exact loop_only_pos. Qed.
+Print Assumptions C12_positional_only_mode.
+Theorem C12_double_dash_switches : forall d st pos post,
+  loop d st false pos false ([dash; dash] :: post) = loop d st true pos false post.
+Proof. exact double_dash_step. Qed.
+Print Assumptions C12_double_dash_switches.
+Theorem C12_greedy_rest : forall d st pos a rest,
+  d_greedy d = true -> is_value a = true -> full d (length pos) = false ->
+  loop d st false pos false (a :: rest) = loop d st true (pos ++ [a]) false rest.
+Proof. exact greedy_rest. Qed.
+Print Assumptions C12_greedy_rest.
+Theorem C12_value_token_positional : forall d st pos a rest,
+  is_value a = true -> full d (length pos) = false -> d_greedy d = false ->
+  loop d st false pos false (a :: rest) = loop d st false (pos ++ [a]) false rest.
+Proof. exact value_token_positional. Qed.
+Print Assumptions C12_value_token_positional.
+Theorem C12_limit_respected : forall d st op pos skip args st' pos',
+  loop d st op pos skip args = Ok (st', pos') ->
+  (match d_allowed d with Some k => length pos <= k | None => True end) ->
+  match d_allowed d with Some k => length pos' <= k | None => True end.
+Proof. exact limit_respected. Qed.
+Print Assumptions C12_limit_respected.
+(* the spec's side: positionals of the result = inline ones in order followed by everything after the first -- *)
+Theorem C12_positionals_of_items : forall d e items tail r, assign d e items tail = Ok r ->
+  r_pos r = inline_pos items ++ match tail with Some ps => ps | None => [] end.
+Proof. intros d e items tail r H. exact (proj2 (proj2 (proj2 (assignment_reports truthy falsy d e items tail r H)))). Qed.
+Print Assumptions C12_positionals_of_items.
+Theorem C12_limit_of_items : forall d items tail k, wf_items d items tail = true -> d_allowed d = Some k ->
+  length (inline_pos items) + n_tail tail <= k.
+Proof. exact wf_items_limit. Qed.
+Print Assumptions C12_limit_of_items.
+(* arguments::get(int): index -k is the k-th positional from the end; -n-1 and n raise *)
+Theorem C12_neg_index : forall pos k, 1 <= k <= length pos -> arg_get pos (- Z.of_nat k) = nth_error pos (length pos - k).
+Proof. exact neg_index. Qed.
+Print Assumptions C12_neg_index.
+Theorem C12_index_out_of_range : forall pos, arg_get pos (Z.of_nat (length pos)) = None /\ arg_get pos (- Z.of_nat (length pos) - 1) = None.
+Proof. exact index_out_of_range. Qed.
+Print Assumptions C12_index_out_of_range.
+Theorem C12_index_in_range_iff : forall pos i, arg_get pos i <> None <-> (- Z.of_nat (length pos) <= i < Z.of_nat (length pos))%Z.
+Proof. exact index_in_range_iff. Qed.
+Print Assumptions C12_index_in_range_iff.
+
+Module Examples.
+Import Strings.String.
+Local Open Scope string_scope.
+Example C12_ex_after_dd : exists r, snd (parse sample_decl sample_env (init_st sample_decl) [B "--out=1"; B "--"; B "--"; B "-"]) = Ok r
+   /\ r_pos r = [B "--"; B "-"] /\ arg_get (r_pos r) (-1) = Some (B "-") /\ arg_get (r_pos r) (-3) = None /\ arg_get (r_pos r) 2 = None.
+Proof. eexists. vm_compute. repeat split. Qed.
+Example C12_ex_limit : snd (parse sample_decl sample_env (init_st sample_decl) [B "--out=1"; B "a"; B "--"; B "b"; B "c"]) = Err UserError.
+Proof. vm_compute. reflexivity. Qed.
+End Examples.
